@@ -273,7 +273,9 @@ def run_merge(rep, tier):
 def run(rep, tier, only=None):
     global _B
     snapshot.activate()
-    if not only or 'merge' in only:
+    if only == 'nomerge':            # the aggregating check C36 wants the C kernel obligations only
+        only = None
+    elif not only or 'merge' in only:
         run_merge(rep, tier)
         if only and 'merge' in only:
             return
